@@ -176,6 +176,9 @@ def nud__datetime_stamp_type(self: XPathConstructor) -> XPathConstructor:
         self.parser.advance(')')
     except SyntaxError as err:
         raise self.error('XPST0017', str(err)) from None
+
+    if self[0].symbol == '?' and not self[0]:
+        self.to_partial_function()
     return self
 
 
@@ -278,6 +281,8 @@ def nud__boolean_type_and_function(self: XPathConstructor) -> XPathConstructor:
         msg = 'Too many arguments: expected at most 1 argument'
         raise self.error('XPST0017', msg)
     self.parser.advance(')')
+    if self[0].symbol == '?' and not self[0]:
+        self.to_partial_function()
     return self
 
 
@@ -328,6 +333,8 @@ def nud__string_type_and_function(self: XPathConstructor) -> XPathConstructor:
     except ElementPathSyntaxError as err:
         raise self.error('XPST0017', err)
     else:
+        if self and self[0].symbol == '?' and not self[0]:
+            self.to_partial_function()
         return self
 
 
@@ -398,6 +405,8 @@ def nud__qname_and_datetime(self: XPathConstructor) -> XPathConstructor:
     except SyntaxError:
         raise self.error('XPST0017') from None
     else:
+        if any(tk.symbol == '?' and not tk for tk in self):
+            self.to_partial_function()
         return self
 
 
@@ -538,6 +547,8 @@ def nud__error_type_and_function(self: XPathConstructor) -> XPathConstructor:
     except SyntaxError:
         raise self.error('XPST0017') from None
     else:
+        if any(tk.symbol == '?' and not tk for tk in self):
+            self.to_partial_function()
         return self
 
 
